@@ -382,9 +382,71 @@ func tableStr(t map[int][]int) string {
 	return strings.Join(s, " ")
 }
 
+// C18 end to end: the timestamp of every delivered block is the median (common.Median's rule, recomputed here
+// independently) of the claimed times of the famous witnesses of its round-received, and lies within the range of the
+// honest famous witnesses' times when fewer than half of them carry an adversary's timestamp.
+func (h *hist) timestampOracle(a *hx.Node) {
+	w := h.w
+	for k, b := range a.Final {
+		ri, err := a.Store.GetRound(b.RoundReceived())
+		if err != nil {
+			continue // round info of an old round is cache-only on a small-cache node
+		}
+		all, hon := []int64{}, []int64{}
+		complete := true
+		for _, x := range ri.FamousWitnesses() {
+			ev, gerr := a.Store.GetEvent(x)
+			if gerr != nil {
+				complete = false
+				break
+			}
+			t := ev.Body.Timestamp
+			all = append(all, t)
+			if !h.byzTime[x] {
+				hon = append(hon, t)
+			}
+		}
+		if !complete || len(all) == 0 {
+			continue
+		}
+		h.tsChecked++
+		sorted := append([]int64{}, all...)
+		sort.Slice(sorted, func(i, j int) bool { return sorted[i] < sorted[j] })
+		var want int64
+		if n := len(sorted); n%2 == 1 {
+			want = sorted[n/2]
+		} else {
+			want = (sorted[n/2-1] + sorted[n/2]) / 2 // int64 arithmetic as in common.Median (wraps on overflow)
+		}
+		if b.Timestamp() != want {
+			w.Violation("C18", "block-timestamp-is-not-median-of-famous-witnesses", fmt.Sprintf("node=%d block=%d round=%d timestamp=%d median=%d sample=%v", a.ID, a.Base+k, b.RoundReceived(), b.Timestamp(), want, all))
+		}
+		if nb := len(all) - len(hon); len(hon) > 0 && 2*nb < len(all) {
+			lo, hi := hon[0], hon[0]
+			for _, t := range hon {
+				if t < lo {
+					lo = t
+				}
+				if t > hi {
+					hi = t
+				}
+			}
+			if b.Timestamp() < lo || b.Timestamp() > hi {
+				w.Violation("C18", "block-timestamp-outside-honest-range", fmt.Sprintf("node=%d block=%d timestamp=%d honest=[%d,%d] byzantine=%d of %d", a.ID, a.Base+k, b.Timestamp(), lo, hi, nb, len(all)))
+			}
+			if nb > 0 {
+				h.actions["c18-blocks-with-byzantine-famous-witness"]++
+			}
+		}
+	}
+}
+
 // finalOracles: end-of-history checks.
 func (h *hist) finalOracles() {
 	for _, a := range h.nodes {
+		if a.Core != nil || a.Hg != nil {
+			h.timestampOracle(a)
+		}
 		if h.uncompared0 && a.ID == 0 {
 			continue // frames of old rounds are cache-only on the small-cache node (documented W4)
 		}
